@@ -185,11 +185,11 @@ func buildRefTree(r *rand.Rand, a *model.Node, fos []fopt, decoys []decoy) (*mod
 
 // mergeLibRef merges aRef then b with VarExp on and observes the result without
 // the r<i> settings; problem names a referenced setting that changed.
-func mergeLibRef(aRef, b *model.Node, sites []refSite, opts []ucfg.Option) (got string, problem string, err error) {
+func mergeLibRef(md *modes, aRef, b *model.Node, sites []refSite, opts []ucfg.Option) (got string, problem string, err error) {
 	opts = append(append([]ucfg.Option{}, opts...), ucfg.VarExp)
 	c := ucfg.New()
 	for _, t := range []*model.Node{aRef, b} {
-		if err := c.Merge(t.ToGo(), opts...); err != nil {
+		if err := c.Merge(md.toGo(t), opts...); err != nil {
 			return "", "", fmt.Errorf("merge: %w", err)
 		}
 	}
